@@ -1,5 +1,3 @@
-//go:build verif
-
 // Command dataprobe writes hand-made x/data histories as chain traces (trace_data_probe_*.json) for the
 // C16 correspondence (driver/data_cases.py + coq/Cases/DataRun.v).  They complement the random
 // `data` family of cmd/ledger with the corners that generator does not reach:
